@@ -629,7 +629,7 @@ func Check(c *Case) (failure string, labels map[string]int, nontrivial bool) {
 	if panicked != nil {
 		return fmt.Sprintf("extraction panicked: locator %q message %T %+v: %v", c.Locator, msg, msg, panicked), labels, true
 	}
-	if proto && c.Prev != nil && freshSeq < 20000 { // reflect keeps every struct type it ever built: bounded per process
+	if proto && c.Prev != nil && freshSeq < 6000 { // reflect keeps every struct type it ever built: bounded per process
 		freshSeq++
 		freshTag = fmt.Sprintf(`verif:"%d"`, freshSeq)
 		twin := build(c.V)
